@@ -66,7 +66,7 @@ class C04(Property):
         res = []
         for pos in range(0, 7):
             for mode in ("cancel", "deadline", "race"):
-                res.append(self._rest(s1, [[1, [5]]], mode, pos))
+                res.append(self._rest(s1, [[1, [5]]], mode, pos, yld=pos % 3))
         res.append(self._rest(s1, [[1, [5]]], "none", 0))
         res.append(self._rest(s1, [[1, [5]]], "cancel", 3, req="ws"))
         res.append(self._rest(s1 + [["chk"], ["w", [203]]], [], "cancel", 3, req="sse"))
@@ -76,13 +76,16 @@ class C04(Property):
         res.append(self._rest([["wh", 200], ["wh", 99], ["w", []]], [[2, [1, 2]]], "none", 0))
         res.append(self._rest([["w", [200]], ["chk"], ["w", [201]], ["chk"], ["w", [202]]], [], "race", 3))
         res.append(self._rest([["w", [200]], ["chk"], ["w", [201]]], [], "deadline", 1, parent=SHORT, dur=HOUR))
+        # whether WriteHeader ran before or after the timeout branch shows only in a later invalid code
+        for y in (0, 1, 1, 3, 8):
+            res.append(self._rest([["wh", 502], ["wh", 1000]], [], "race", 0, yld=y))
         return res
 
-    def _rest(self, script, h0, mode, pos, req="plain", dur=None, parent=None):
+    def _rest(self, script, h0, mode, pos, req="plain", dur=None, parent=None, yld=0):
         if dur is None:
             dur = SHORT if mode == "deadline" else HOUR
         return {"kind": "rest", "req": req, "dur_ns": dur, "parent_ns": parent, "h0": h0,
-                "script": script, "d": {"mode": mode, "pos": pos}}
+                "script": script, "d": {"mode": mode, "pos": pos, "yield": yld}}
 
     def _script(self, rng):
         n = rng.choice([0, 1, 2, 3, 3, 4, 4, 5, 6, 7])
@@ -129,7 +132,7 @@ class C04(Property):
                     cases.append(self._rest(script, h0, "deadline", pos, parent=rng.choice([None, 2 * HOUR])))
                 else:
                     cases.append(self._rest(script, h0, "deadline", pos, dur=HOUR, parent=SHORT))
-                cases.append(self._rest(script, h0, "race", pos, parent=par))
+                cases.append(self._rest(script, h0, "race", pos, parent=par, yld=rng.choice([0, 0, 1, 3, 8])))
             x = rng.random()
             pos = rng.randint(0, steps)
             if x < 0.25:
@@ -144,10 +147,78 @@ class C04(Property):
         return cases
 
     def _slots_enabled(self):
-        return False
+        return True
+
+    def _slot(self, kind, steps, bail, fin, mode, pos, dur, parent=None, confs=None, method=0):
+        return {"kind": kind, "steps": steps, "bail": bail, "fin": fin,
+                "d": {"mode": mode, "pos": pos, "yield": (pos * 3) % 5 if mode == "race" else 0},
+                "dur_ns": dur, "confs": confs or [], "method": method, "parent_ns": parent, "own": kind == "zrpc"}
 
     def _gen_slots(self, rng, n):
-        return []
+        cases = []
+        n_client = max(4, n // 12)
+        n_engine = max(4, n // 16)
+        n_slot = max(8, n - n_client - n_engine)
+        while len(cases) < n_slot:
+            kind = "zrpc" if rng.random() < 0.7 else "fx"
+            steps = [rng.choice(["work", "work", "chk"]) for _ in range(rng.choice([0, 1, 2, 2, 3, 4]))]
+            bail = rng.choice([[0, 77], [5, 78]]) if kind == "zrpc" else [0, 77]
+            if rng.random() < 0.15:
+                fin = ["panic", rng.randint(1, 9)]
+            elif kind == "zrpc":
+                fin = ["ret", rng.choice([0, 3]), rng.choice([0, 0, 5])]
+            else:
+                fin = ["ret", 0, rng.choice([0, 5])]
+            nsteps = len(steps) + 1
+            long = rng.choice([HOUR, 2 * HOUR, HOUR // 2])
+
+            def mk(mode, pos):
+                par = rng.choice([None, None, HOUR // 4, 3 * HOUR])
+                st = list(steps)
+                dur, confs, method = long, [], 0
+                if kind == "zrpc":
+                    method = rng.choice([0, 1, 2, 3])
+                    for _ in range(rng.choice([0, 0, 1, 2, 3])):
+                        confs.append([rng.choice([0, 1, 2, 3]), rng.choice([HOUR, 2 * HOUR, HOUR // 2])])
+                if mode == "deadline":
+                    how = rng.choice(["own", "parent", "method"] if kind == "zrpc" else ["own", "parent"])
+                    if how == "parent":
+                        par = SHORT
+                    elif how == "method":
+                        method = rng.choice([1, 2, 3])
+                        confs.append([method, SHORT])
+                    else:
+                        dur = SHORT
+                        # the default only applies when no entry names the method
+                        confs = [mc for mc in confs if mc[0] != method or method == 0]
+                        if kind == "fx":
+                            st = ["work"] * len(st)     # fn cannot see DoWithTimeout's own context
+                return self._slot(kind, st, bail, fin, mode, pos, dur, par, confs, method)
+
+            cases.append(mk("none", 0))
+            for pos in range(0, nsteps + 1):
+                cases.append(mk("cancel", pos))
+            for pos in range(0, nsteps):
+                cases.append(mk("deadline", pos))
+                cases.append(mk("race", pos))
+            if rng.random() < 0.3:
+                # a timeout <= 0: the derived context is born expired
+                cases.append(self._slot(kind, ["work"] * len(steps), bail, fin, "deadline", 0, rng.choice([0, -7]),
+                                        rng.choice([None, HOUR])))
+        cases = cases[:n_slot]
+        for _ in range(n_client):
+            cases.append({"kind": "client",
+                          "opts": [rng.choice([0, -5, HOUR, 2 * HOUR, HOUR // 3]) for _ in range(rng.choice([0, 0, 1, 1, 2, 3]))],
+                          "filler": rng.choice([0, 0, 1, 2]),
+                          "default_ns": rng.choice([0, -1, HOUR, HOUR // 2]),
+                          "parent_ns": rng.choice([None, HOUR // 3 + 17, 3 * HOUR]),
+                          "inv_err": rng.choice([0, 0, 7])})
+        for _ in range(n_engine):
+            cases.append({"kind": "engine",
+                          "route_ns": rng.choice([0, 0, -5, HOUR // 3, HOUR]),
+                          "conf_ms": rng.choice([0, 3000, 600000, 3600000]),
+                          "parent_ns": rng.choice([None, HOUR // 6 + 3, 3 * HOUR])})
+        return cases
 
     # ------------------------------------------------------------------
     # execution
@@ -181,12 +252,92 @@ class C04(Property):
         return obs
 
     def _exec_kind(self, kind, sub):
-        if kind == "rest":
-            rc, out, res = vlib.go_run(self.bin, sub, tag="c04", timeout=900)
+        if kind in ("rest", "fx"):
+            rc, out, res = vlib.go_run(self.bin, sub, tag="c04" + kind, timeout=900)
             if rc != 0:
                 raise ExecError("c04 executor rc=%s: %s" % (rc, out[-2000:]))
             return res
-        raise ExecError("c04: unknown case kind %s" % kind)
+        if kind == "zrpc":
+            pkg, d = "./zrpc/internal/serverinterceptors", "zrpc/internal/serverinterceptors"
+            files = {d + "/verif_c04_test.go": os.path.join(OV, "serverinterceptors", "verif_c04_test.go"),
+                     d + "/verif_c04_slotctl_test.go": self._slotctl_copy("serverinterceptors")}
+        elif kind == "client":
+            pkg, d = "./zrpc/internal/clientinterceptors", "zrpc/internal/clientinterceptors"
+            files = {d + "/verif_c04_test.go": os.path.join(OV, "clientinterceptors", "verif_c04_test.go")}
+        elif kind == "engine":
+            pkg = "./rest"
+            files = {"rest/verif_c04_test.go": os.path.join(OV, "rest", "verif_c04_test.go")}
+        else:
+            raise ExecError("c04: unknown case kind %s" % kind)
+        rc, out, res = vlib.go_test_overlay(pkg, files, run="^TestVerifC04$", cases=sub, tag="c04" + kind, timeout=900)
+        if rc != 0:
+            raise ExecError("c04 %s overlay test rc=%s: %s" % (kind, rc, out[-2500:]))
+        return res
+
+    def _slotctl_copy(self, pkg):
+        src = open(os.path.join(vlib.HARNESS, "cmd", "c04", "slotctl.go")).read()
+        text = src.replace("package main", "package " + pkg, 1)
+        d = os.path.join(vlib.ROOT, ".run")
+        os.makedirs(d, exist_ok=True)
+        path = os.path.join(d, "c04_slotctl_%s_test.go" % pkg)
+        if not os.path.exists(path) or open(path).read() != text:
+            tmp = path + ".tmp%d" % os.getpid()
+            with open(tmp, "w") as f:
+                f.write(text)
+            os.replace(tmp, path)
+        return path
+
+    def extra(self, ctx):
+        """thorough tier: free-running REST monitor and the forced zRPC/REST cases, all under -race."""
+        if ctx.tier != "thorough":
+            return []
+        import random
+        fails = []
+        rng = random.Random(ctx.seed * 31 + 5)
+        ok, res = vlib.go_build("c04", race=True)
+        if not ok:
+            raise ExecError("c04 -race build failed: %s" % res[-1500:])
+        try:
+            free = []
+            for i in range(12):
+                script = [a for a in self._script(rng) + self._script(rng)
+                          if a[0] in ("set", "add", "del", "w") or (a[0] == "wh" and a[1] in CODES)]
+                free.append({"id": i, "kind": "free", "req": "plain", "dur_ns": 0, "parent_ns": None,
+                             "h0": self._h0(rng), "script": script, "d": {"mode": "none", "pos": 1500}})
+            forced = [c for c in self.gen(rng, 400, "thorough") if c["kind"] in ("rest", "fx")]
+            for j, c in enumerate(forced):
+                c["id"] = 1000 + j
+            rc, out, rs = vlib.go_run(res, free + forced, tag="c04race", timeout=1200)
+            if "DATA RACE" in out or rc == 66:
+                fails.append({"what": "data race in the REST/fx timeout wrappers under -race (atomicity assumption of the model broken)",
+                              "replay": {"output": out[-6000:]}})
+            elif rc != 0:
+                raise ExecError("c04 -race run rc=%s: %s" % (rc, out[-2000:]))
+            for r in rs[:len(free)]:
+                if r.get("err"):
+                    raise ExecError("c04 free run: %s" % r["err"])
+                if r.get("violations"):
+                    fails.append({"what": "free-running REST monitor: response is neither the complete response nor the 503 reply, "
+                                          "or the writer was used after ServeHTTP returned: " + r.get("first", ""),
+                                  "replay": {"case": free[r["id"]], "result": r}})
+            ctx.notes.append("free-run -race: %d iterations, %d complete / %d timeouts" % (
+                sum(r.get("iters", 0) for r in rs[:len(free)]), sum(r.get("complete", 0) for r in rs[:len(free)]),
+                sum(r.get("timeouts", 0) for r in rs[:len(free)])))
+            z = [c for c in self.gen(rng, 500, "thorough") if c["kind"] == "zrpc"][:150]
+            for j, c in enumerate(z):
+                c["id"] = j
+            d = "zrpc/internal/serverinterceptors"
+            files = {d + "/verif_c04_test.go": os.path.join(OV, "serverinterceptors", "verif_c04_test.go"),
+                     d + "/verif_c04_slotctl_test.go": self._slotctl_copy("serverinterceptors")}
+            rc, out, rs = vlib.go_test_overlay("./" + d, files, run="^TestVerifC04$", cases=z, tag="c04zrace",
+                                               timeout=1200, race=True)
+            if "DATA RACE" in out:
+                fails.append({"what": "data race in UnaryTimeoutInterceptor under -race", "replay": {"output": out[-6000:]}})
+            elif rc != 0:
+                raise ExecError("c04 zrpc -race run rc=%s: %s" % (rc, out[-2000:]))
+        finally:
+            vlib.go_build("c04")
+        return fails
 
     # ------------------------------------------------------------------
     # rendering
@@ -254,7 +405,58 @@ class C04(Property):
         k = case["kind"]
         if k == "rest":
             return self._coq_rest(case, obs)
+        if k in ("zrpc", "fx"):
+            return self._coq_slot(case, obs)
+        if k == "client":
+            return "CClient (mkClient %s %s %s %s %s %s %s)" % (
+                clist([cz(x) for x in case["opts"]]), cz(case["default_ns"]), self._optz(case["parent_ns"]),
+                cz(case["inv_err"]), self._optz(obs["dl_seen_ns"] if obs["has_dl"] else None), cz(obs["t1_ns"]),
+                cz(obs["ret_err"]))
+        if k == "engine":
+            return "CEngine (mkEngine %s %s %s %s %s)" % (
+                cz(case["route_ns"]), cz(case["conf_ms"]), self._optz(case["parent_ns"]),
+                self._optz(obs["dl_seen_ns"] if obs["has_dl"] else None), cz(obs["t1_ns"]))
         raise ExecError("unknown kind")
+
+    def _coq_slot(self, c, o):
+        fin = c["fin"]
+        wfin = "(WRet %s %s)" % (cz(fin[1]), cz(fin[2])) if fin[0] == "ret" else "(WPanic %s)" % cz(fin[1])
+        script = "(mkW %s (%s, %s) %s)" % (clist(["WCheck" if x == "chk" else "WWork" for x in c["steps"]]),
+                                          cz(c["bail"][0]), cz(c["bail"][1]), wfin)
+        fields = [
+            "0" if c["kind"] == "zrpc" else "1", script, copt(_kind(c["d"]["mode"])),
+            clist(["(%s, %s)" % (cz(m), cz(t)) for m, t in c["confs"]]), cz(c["method"]), cz(c["dur_ns"]),
+            self._optz(c["parent_ns"]),
+            clist([self._ev(e) for e in o["sched"]]), clist([self._ares(x) for x in o["hobs"]]),
+            cbool(o["ret"]), self._optz(o["pval"] if o["panicked"] else None), cbool(o["stack"]),
+            cz(o["r"]), cz(o["e"]), self._optz(o["dl_seen_ns"] if o["has_dl"] else None), cz(o["t1_ns"]),
+            cz(o["ret_at_d"]),
+        ]
+        return "CSlot (mkSlot %s)" % " ".join(fields)
+
+    @staticmethod
+    def _alts(c, sched):
+        """Linearisations the executor cannot tell from the one it reported: the timeout branch
+        (seen only when ServeHTTP returns) may have run before some of the handler actions that
+        precede it, back to the Done event; a timer expiry (never seen directly) may have
+        happened before some of the handler actions that precede it."""
+        if "St" not in sched:
+            return []
+        i_s = sched.index("St")
+        d = "Dd" if "Dd" in sched else "Dc"
+        if d not in sched[:i_s]:
+            return []
+        i_d = sched.index(d)
+        rest = [e for j, e in enumerate(sched) if j not in (i_d, i_s)]   # H events (and nothing else before St)
+        d_places = range(0, i_d + 1) if (d == "Dd" and c["d"]["mode"] == "deadline") else [i_d]
+        alts = []
+        for pd in d_places:
+            # St sits after D: between pd and its reported place (as index into `rest` + offset)
+            for ps in range(pd, i_s):
+                cand = rest[:pd] + [d] + rest[pd:ps] + ["St"] + rest[ps:]
+                if cand != sched and cand not in alts:
+                    alts.append(cand)
+        return alts[:40]
 
     def _coq_rest(self, c, o):
         rq = {"plain": "RqPlain", "ws": "RqWebsocket", "sse": "RqSSE"}[c["req"]]
@@ -264,7 +466,9 @@ class C04(Property):
         fields = [
             self._hdrs(c["h0"]), clist([self._act(a) for a in c["script"]]), cz(c["dur_ns"]), rq,
             self._optz(c["parent_ns"]), copt(_kind(c["d"]["mode"])),
-            cbool(o["wrapped"]), clist([self._ev(e) for e in o["sched"]]), clist([self._ares(x) for x in o["hobs"]]),
+            cbool(o["wrapped"]), clist([self._ev(e) for e in o["sched"]]),
+            clist([clist([self._ev(e) for e in alt]) for alt in self._alts(c, o["sched"])]),
+            clist([self._ares(x) for x in o["hobs"]]),
             sout, cz(o["status"]), self._hdrs(o["snap"]), self._hdrs(o["live"]), clist([cz(b) for b in o["body"]]),
             cz(o["extra"]), cz(o["late"]), cz(o["foreign"]),
             self._optz(o["dl_seen_ns"] if o["has_dl"] else None), cz(o["t1_ns"]), cz(o["ret_at_d"]),
@@ -279,7 +483,11 @@ class C04(Property):
             n = len(case["script"])
             writes = any(a[0] in ("w", "set", "add", "wh") for a in case["script"])
             return case["d"]["mode"] != "none" and 0 < case["d"]["pos"] <= n and writes and case["req"] == "plain"
-        return True
+        if case["kind"] in ("zrpc", "fx"):
+            return case["d"]["mode"] != "none" and 0 < case["d"]["pos"] <= len(case["steps"])
+        if case["kind"] == "client":
+            return bool(case["opts"]) and case["parent_ns"] is not None
+        return case["parent_ns"] is not None
 
     def features(self, case, obs):
         fs = ["kind=" + case["kind"]]
@@ -305,6 +513,17 @@ class C04(Property):
                 fs.append("rest:has_ctx_check")
             if any(a[0] == "panic" for a in case["script"]):
                 fs.append("rest:has_panic")
+        if case["kind"] in ("zrpc", "fx"):
+            k = case["kind"]
+            fs.append(k + ":mode=" + case["d"]["mode"])
+            br = [e for e in obs["sched"] if e.startswith("S")]
+            fs.append(k + ":branch=" + (br[0] if br else "none"))
+            if obs["panicked"]:
+                fs.append(k + ":panic_reraised")
+            if case["confs"]:
+                fs.append(k + ":method_conf")
+            if case["dur_ns"] <= 0:
+                fs.append(k + ":timeout<=0")
         return fs
 
     def shrink_candidates(self, case):
@@ -326,6 +545,23 @@ class C04(Property):
                     c = copy.deepcopy(case)
                     c["script"][j] = ["w", a[1][:1]]
                     res.append(c)
+        if case["kind"] in ("zrpc", "fx"):
+            st = case["steps"]
+            for j in range(len(st)):
+                c = copy.deepcopy(case)
+                c["steps"] = st[:j] + st[j + 1:]
+                if c["d"]["pos"] > j:
+                    c["d"]["pos"] -= 1
+                res.append(c)
+            for j in range(len(case.get("confs", []))):
+                c = copy.deepcopy(case)
+                c["confs"] = case["confs"][:j] + case["confs"][j + 1:]
+                res.append(c)
+        if case["kind"] == "client":
+            for j in range(len(case["opts"])):
+                c = copy.deepcopy(case)
+                c["opts"] = case["opts"][:j] + case["opts"][j + 1:]
+                res.append(c)
         return res
 
     def describe_failure(self, case, obs):
